@@ -216,8 +216,8 @@ def _run(t: str, s: int) -> Result:
     from . import kset
 
     sweep_inputs = {"d0s1s2"} if t == "quick" else None
-    for text, fm in kset.target_sweep():
-        if t == "quick" and (text != "a(i,j,k) = b(i,j,k)" or fm["b"] not in sweep_inputs):
+    for text, fm in list(kset.target_sweep()) + list(kset.target_sweep4()):
+        if t == "quick" and "l)" not in text and (text != "a(i,j,k) = b(i,j,k)" or fm["b"] not in sweep_inputs):
             continue
         probe = kernels.compile_kernel(text, fm, ["evaluate"], [], cap=1)
         if probe.error:
@@ -304,6 +304,38 @@ def _run(t: str, s: int) -> Result:
             meta[cid] = {"kernel": gc["_kernel"], "text": k.text, "formats": k.formats, "cap": cap, "group": group,
                          "dims": gc["_dims"], "stage": "machine-gen"}
 
+    # ---- stage A3: overflow probes.  All dimensions 65536, nothing stored, kernels whose operands are all-compressed and
+    # whose output has at most one dense level (so every element count still fits 32 bits): the start of the kernel
+    # (dimension extraction, initial capacities, first allocations) must not overflow int32.  The run is cut off by a
+    # small step budget; only a fault before that is reported.
+    probes, probe_meta = [], {}
+    probe_programs = list(programs)
+    for ki, (k, cap, group) in enumerate(kernel_list):
+        if group in ("broadcast-target", "big-literal", "inexact-literal") or cap not in (1, None):
+            continue
+        fu = exprs.first_use(k.asg)
+        if any("d" in k.formats[nm] for nm in fu) or k.formats[k.asg["target"]].count("d") > 1 or not fu:
+            continue
+        dims = {i: 65536 for i in exprs.index_classes(k.asg)}
+        img = dict(programs[k.progs["evaluate"] - 1], budget=300)
+        probe_programs.append(img)
+        pid = len(probe_programs)
+        c = kernels.base_case(k, len(probes) + 1, [dims], [{nm: [] for nm in fu}],
+                              [{"op": "load", "val": 1, "dims": 1}, {"op": "run", "prog": pid, "track": False}],
+                              "raw", emit=False)
+        probes.append(c)
+        probe_meta[c["id"]] = {"kernel": ki, "text": k.text, "formats": k.formats, "cap": cap, "group": group, "dims": dims,
+                               "stage": "overflow-probe"}
+    probe_bad, probe_states = [], (0, 0)
+    if probes:
+        kernel_of_p = {c["id"]: probe_meta[c["id"]]["kernel"] for c in probes}
+        prog_of_p = {probe_meta[c["id"]]["kernel"]: c["script"][1]["prog"] for c in probes}
+        p_lines, p_st, p_tr, _ = machine_run(probe_programs, probes, kernel_of_p, prog_of_p, d, "p")
+        probe_states = (p_st, p_tr)
+        for l in p_lines:
+            if l["status"] not in ("done", "idle", "step-budget", "value-range", "unsupported-node"):
+                probe_bad.append({**probe_meta[l["case"]], "what": l["status"] + "-at-dimension-65536", "v": {"c05": l["status"]}, "content": {}})
+
     # ---- stage B: replay every safe behaviour into the real back ends ---------------------------------------------
     INCONCLUSIVE = ("value-range", "unsupported-node")
     faulty_kernels = {meta[c]["kernel"] for c, l in lines.items() if l["v"]["c05"] not in ("ok",) + INCONCLUSIVE}
@@ -351,8 +383,11 @@ def _run(t: str, s: int) -> Result:
                 v = "raised-" + o["exc"]
             else:
                 want_dims = [m["dims"][i] for i in k.asg["tidx"]]
+                want_fmt = kernels.fmt_record(k.formats[k.asg["target"]])
                 if o["out"]["dims"] != want_dims:
                     v = "dimensions"
+                elif o["out"]["modes"] != want_fmt["modes"] or o["out"]["ordering"] != want_fmt["ordering"]:
+                    v = "format-label"
                 elif l["status"] in INCONCLUSIVE and "inexact-literal" in exprs.shape_tags(k.asg):
                     v = "ok"   # no exact reference exists; the two back ends are still compared bit for bit below
                 elif l["status"] in INCONCLUSIVE:
@@ -443,7 +478,8 @@ def _run(t: str, s: int) -> Result:
             obs_cases.append(c)
             obs_meta[cid] = {"kernel": ki, "text": k.text, "formats": k.formats, "cap": cap, "group": group,
                              "dims": wm["dims"], "stage": "native-trace",
-                             "dims_ok": o["out"]["dims"] == want_dims}
+                             "dims_ok": o["out"]["dims"] == want_dims and o["out"]["modes"] == kernels.fmt_record(k.formats[k.asg["target"]])["modes"]
+                             and o["out"]["ordering"] == kernels.fmt_record(k.formats[k.asg["target"]])["ordering"]}
     rc_lines = {}
     rc_states = (0, 0)
     if obs_cases:
@@ -550,9 +586,9 @@ def _run(t: str, s: int) -> Result:
         traces.append({"cid": cid, **m, "v": l["v"], "content": l["content"], "out": obs_cases[cid - 1]["obs"][0]})
     return Result(
         tier=t, seed=s, wall=timer.s(), kernels=len(kernel_list), programs=len(programs), skipped_requests=skipped,
-        states=ra.distinct + rc_states[0] + states_gen, transitions=ra.generated + rc_states[1] + trans_gen, depth=ra.depth,
+        states=ra.distinct + rc_states[0] + states_gen + probe_states[0], transitions=ra.generated + rc_states[1] + trans_gen, depth=ra.depth,
         exhaustive_input_kernels=len(gen_cases), exhaustive_input_behaviours=gen_expected,
         coverage=ra.coverage, records=records, traces=traces, wide_bad=wide_bad, chain_bad=chain_bad, chained=chained,
-        float_bad=float_bad, float_compared=float_compared,
+        float_bad=float_bad, float_compared=float_compared, probe_bad=probe_bad, probes=len(probes),
         native_tasks=len(tasks), wide_tasks=len(wide_tasks),
     )
